@@ -31,3 +31,21 @@ Theorem C07_text_canonical_silent :
     exists warns, parse_model cls numcanon holo_ok strict (lines_of (emit sp d)) = PRDoc d [] warns /\
                   Forall (fun w => wsub w = 5%N \/ wsub w = 9%N) warns.
 Proof. exact text_roundtrip_core. Qed.
+
+From OV Require Import Rt.Receipts.
+(* EVERY LEXER REWRITE HAS EXACTLY ONE RECEIPT, for every input text the lexer accepts (lenient or strict): the
+   normalization receipts returned by tokenize are -- record for record, in order -- the tokens that carry a
+   `normalized_from` mark (alias operators, `#` for the section marker, `+`, triple quotes), each with the original
+   spelling, the replacement value and the token's line and column; and no receipt exists without such a token.
+   Invariant of the scanner loop over every branch of step_plain / step_fallback / step_fence. *)
+Theorem C07_lexer_receipts_are_marked_tokens :
+  forall cls lenient lines toks reps,
+    tokenize cls lenient lines = LexOk toks reps -> norm_reps reps = flat_map rec_of_tok toks.
+Proof. exact lexer_receipts_are_marked_tokens. Qed.
+
+(* an alias spelling is always read as the Unicode operator and marked with the spelling and its position *)
+Theorem C07_alias_token_marked :
+  forall st k v m r norm st' u, alias_of m = Some u -> emit_pat st k v m r norm = Continue st' ->
+    exists t rest, ls_toks st' = t :: rest /\ rest = ls_toks st /\ tk t = k /\ tv t = TVText u /\ tnorm t = Some m /\
+                   tline t = ls_line st /\ tcol t = ls_col st.
+Proof. exact emit_pat_alias_marked. Qed.
